@@ -104,8 +104,3 @@ Proof.
   eapply marked_annotation_absent; eauto.
   eapply sy_marked_in; [exact Hin|]. apply known_prefix_marks.
 Qed.
-
-(* _store_marker refuses every prefix starting with "kopf.": the root of F5 *)
-Theorem kopf_prefix_never_marked : forall prefix body patch,
-  str_prefix_of "kopf." prefix = true -> store_marker prefix body patch = Ok patch.
-Proof. intros prefix body patch H. unfold store_marker. rewrite H. now rewrite andb_false_r. Qed.
